@@ -363,7 +363,18 @@ class StackNode:
             d, what = min(pend)
             # injected holds since the thread last slept by itself delay it by their length (e.g. between computing the sleep time and sleeping)
             if d < end - 0.001 - held and len(self.sleep_problems) < 5:
-                self.sleep_problems.append((now, timeout, d - self.bus.sim.EPOCH, what))
+                # suspicious -- confirmed only if the thread really is still in this very sleep 2 ms after that deadline (whoever set the
+                # deadline may still be on its way to the wake-up call, e.g. blocked in a slow send)
+                sim = self.bus.sim
+                st = self.job_state
+                mark = st.blocks + 1          # block_current() counts this sleep when it starts, right after this hook
+                t_d = d - sim.EPOCH
+
+                def confirm():
+                    if not st.finished and st.blocks == mark and st.waiting_on is not None and st.waiting_on is not engine.HOLD:
+                        if len(self.sleep_problems) < 5:
+                            self.sleep_problems.append((now, timeout, t_d, what))
+                sim.at(max(sim.now, t_d) + 0.002, confirm)
 
     # --- observation helpers (private names read tolerantly) -----------------------------
     def tables(self):
